@@ -322,10 +322,8 @@ func (ctx *crashCtx) tryDamage(tree *vos.Tree, cfg Config, d Damage) {
 	}
 	got := rd.got[firstBad]
 	class := "foreign-bytes"
-	for _, s := range r.States {
-		if v, ok := s[firstBad]; ok && beq(v, got) {
-			class = "stale-value"
-		}
+	if r.Written[firstBad][string(got)] {
+		class = "stale-value" // bytes that were once written for this key (possibly superseded inside their own batch)
 	}
 	kindSig := d.Kind
 	if d.Kind == "truncate" && strings.HasSuffix(d.File, ".data") {
